@@ -146,16 +146,22 @@ static int snap_cmp(const void* a, const void* b) { return strcmp(*(char* const*
 struct Ent { dev_t dev; ino_t ino; char* shown; };
 static Ent* tab; static size_t tab_n, tab_cap;
 static void tab_clear() { for(size_t i = 0; i < tab_n; ++i) free(tab[i].shown); tab_n = 0; }
-static void tab_add(const struct stat& sb, const char* prefix, const char* shown)
+static void tab_add(const struct stat& sb, const char* full)       // full: path below fs-<pid>, "" for the root
 {
   if(tab_n == tab_cap) { tab_cap = tab_cap ? 2 * tab_cap : 64; tab = (Ent*)realloc(tab, tab_cap * sizeof(Ent)); }
-  char* s = (char*)malloc(strlen(prefix) + strlen(shown) + 1); strcpy(s, prefix); strcat(s, shown);
-  tab[tab_n].dev = sb.st_dev; tab[tab_n].ino = sb.st_ino; tab[tab_n].shown = s; ++tab_n;
+  tab[tab_n].dev = sb.st_dev; tab[tab_n].ino = sb.st_ino; tab[tab_n].shown = strdup(full); ++tab_n;
 }
-static const char* name_of(const struct stat& sb)
+// the name an entry has in the snapshot: below g1/g2/g3 without that prefix, anything else marked '!'
+static void shown_name(char* out, size_t cap, const char* full)
+{
+  if(!strncmp(full, "g1/g2/g3/", 9) && full[9]) snprintf(out, cap, "%s", full + 9);
+  else if(!*full) snprintf(out, cap, "!.");
+  else snprintf(out, cap, "!%s", full);
+}
+static const char* full_of(const struct stat& sb)
 {
   for(size_t i = 0; i < tab_n; ++i) if(tab[i].dev == sb.st_dev && tab[i].ino == sb.st_ino) return tab[i].shown;
-  return "?elsewhere";
+  return 0;
 }
 
 // abs: path in the real file system; rel: path below fs-<pid> ("" for the root)
@@ -175,7 +181,7 @@ static void snap_walk(const char* abs, const char* rel, bool collect)
     bool guard = !strcmp(r2, "g1") || !strcmp(r2, "g1/g2") || !strcmp(r2, "g1/g2/g3");
     bool inside = !strncmp(r2, "g1/g2/g3/", 9);
     if(inside) shown = r2 + 9;
-    tab_add(sb, inside ? "" : "!", shown);
+    tab_add(sb, r2);
     char* line = 0;
     if(!collect) {
     } else if(S_ISDIR(sb.st_mode)) {
@@ -205,7 +211,7 @@ static void take_snapshot(bool print)
   snap_n = 0;
   tab_clear();
   struct stat sb;
-  if(lstat(walk_root, &sb) == 0) tab_add(sb, "!", ".");
+  if(lstat(walk_root, &sb) == 0) tab_add(sb, "");
   snap_walk(walk_root, "", print);
   if(!print) return;
   qsort(snap, snap_n, sizeof(char*), snap_cmp);
@@ -217,11 +223,33 @@ static void take_snapshot(bool print)
 static char probes[6][8300]; static int probe_n;
 static struct { char key[4]; char path[8192]; bool follow; } later[4]; static int later_n;
 
+static void probe_store(const char* key, const char* full)
+{
+  char nm[8200];
+  if(full) shown_name(nm, sizeof(nm), full); else snprintf(nm, sizeof(nm), "-");
+  snprintf(probes[probe_n++], sizeof(probes[0]), "%s=%s", key, nm);
+}
 static void probe_put(const char* key, const char* path, bool follow)
 {
   struct stat sb;
   int r = follow ? stat(path, &sb) : lstat(path, &sb);
-  snprintf(probes[probe_n++], sizeof(probes[0]), "%s=%s", key, r == 0 ? name_of(sb) : "-");
+  probe_store(key, r == 0 ? (full_of(sb) ? full_of(sb) : "?elsewhere") : 0);
+}
+// the place a path text names: its directory part as the kernel resolves it, plus the last component
+// when that is a proper name ("-" otherwise)
+static void probe_place(const char* key, const String& path)
+{
+  const char* p = path; size_t n = path.length();
+  size_t cut = n; while(cut > 0 && p[cut - 1] != '/') --cut;          // p[cut..] = last component
+  const char* base = p + cut;
+  char dir[8192];
+  if(cut == 0) snprintf(dir, sizeof(dir), ".");
+  else { size_t k = cut; while(k > 1 && p[k - 1] == '/') --k; snprintf(dir, sizeof(dir), "%.*s", (int)k, p); }
+  struct stat sb;
+  if(!*base || !strcmp(base, ".") || !strcmp(base, "..") || stat(dir, &sb) != 0 || !S_ISDIR(sb.st_mode) || !full_of(sb)) { probe_store(key, 0); return; }
+  char full[8300]; const char* d = full_of(sb);
+  if(*d) snprintf(full, sizeof(full), "%s/%s", d, base); else snprintf(full, sizeof(full), "%s", base);
+  probe_store(key, full);
 }
 static void probe_now(const char* key, const String& path, bool follow) { probe_put(key, path, follow); }
 static void probe_after(const char* key, const String& path, bool follow)
@@ -233,7 +261,7 @@ static void probe_after(const char* key, const String& path, bool follow)
 static void probe_fd(const char* key, int fd)
 {
   struct stat sb;
-  snprintf(probes[probe_n++], sizeof(probes[0]), "%s=%s", key, fstat(fd, &sb) == 0 ? name_of(sb) : "-");
+  probe_store(key, fstat(fd, &sb) == 0 ? (full_of(sb) ? full_of(sb) : "?elsewhere") : 0);
 }
 
 static bool handle_is_dir(int h)
@@ -389,7 +417,7 @@ static bool fs_op(long c, vh::Tok& t)
     printf("%ld %d", c, File::createSymbolicLink(arg(t.v[1]), p) ? 1 : 0);
   } else if(!strcmp(o, "rename")) {
     String a = arg(t.v[1]), b = arg(t.v[2]);
-    probe_now("s", a, false); probe_now("e", b, false); probe_after("d", b, false);
+    probe_now("s", a, false); probe_now("e", b, false); probe_place("p", b); probe_after("d", b, false);
     printf("%ld %d", c, File::rename(a, b, atoi(t.v[3]) != 0) ? 1 : 0);
   } else if(!strcmp(o, "copy")) {
     String a = arg(t.v[1]), b = arg(t.v[2]);
